@@ -3,6 +3,7 @@
 #include <osmium/osm/location.hpp>
 #include <osmium/osm/metadata_options.hpp>
 #include <osmium/osm/node.hpp>
+#include <osmium/osm/timestamp.hpp>
 #include <osmium/osm/types.hpp>
 #include <osmium/osm/way.hpp>
 
@@ -13,6 +14,14 @@
 #include <string>
 
 namespace osmium { namespace io { namespace detail {
+
+    inline std::string c01_positive_weak_iso(const osmium::Timestamp& t) {
+        std::string s;
+        if (t) {
+            s += t.to_iso_all();
+        }
+        return s;   // empty for an unset timestamp
+    }
 
     class XMLOutputBlock {
 
@@ -37,6 +46,14 @@ namespace osmium { namespace io { namespace detail {
             if (m_md.uid()) {
                 write_attribute("version", node.version());  // text-field-gated-by-own-option: version under the uid option
             }
+            if (node.uid() != 0) {                       // write-guard-reads-own-attribute: the user name depends on uid
+                *m_out += " user=\"";
+                *m_out += node.user();
+                *m_out += "\"";
+            }
+            *m_out += " timestamp=\"";                    // xml-strict-attribute-never-empty: may be "", the reader parses strictly
+            *m_out += c01_positive_weak_iso(node.timestamp());
+            *m_out += "\"";
             *m_out += " visible=\"yes\"";                // xml-constant-value-accepted: the reader only knows "true"
             *m_out += " lat=\"";
             *m_out += std::to_string(node.location().x());  // axis-corner-agreement: lat is fed from x()
@@ -115,6 +132,10 @@ namespace osmium { namespace io { namespace detail {
                         node.set_uid(value);
                     } else if (!std::strcmp(name, "version")) {
                         node.set_version(value);
+                    } else if (!std::strcmp(name, "user")) {
+                        (void)value;
+                    } else if (!std::strcmp(name, "timestamp")) {
+                        node.set_timestamp(osmium::Timestamp{static_cast<uint32_t>(osmium::detail::parse_timestamp(&value))});
                     } else if (!std::strcmp(name, "visible")) {
                         node.set_visible(!std::strcmp(value, "true"));
                     } else if (!std::strcmp(name, "lat")) {
